@@ -255,10 +255,14 @@ def run(modname: str, tier: str, seed: int, workers: int) -> int:
     print(f"[{pid}/{tier}] states={agg['n']} transitions={ev['coverage']['transitions']} impl_runs={agg['execs']} "
           f"nontrivial={agg['nontrivial']} outcomes={len(agg['outcomes'])} signatures={len(sigs)} "
           f"new_violations={new_viol} wall={wall:.1f}s")
-    if vacuous:
+    if vacuous and not new_viol:
         print(f"HARNESS-ERROR property={pid} vacuous exploration: {vacuous}")
         return 2
     return 1 if new_viol else 0
+
+
+def _unused():
+    pass
 
 
 def confirm_replay(modname: str, path: str, sig: str):
